@@ -819,3 +819,28 @@ def c15_r13(ctx):
                        detail="the default object is shared by all calls of %s: what one call adds, the next call sees" % f.short,
                        loc=ctx.nodeloc(f, (muts or subs or aug)[0]))
     ctx.ob("whole program", n > 2000, "%d functions scanned for one-shot iterators kept as state and mutated default arguments" % n)
+
+
+@rule("C15", "R15", "K10", "a query class that defines __eq__ keeps its instances hashable",
+      min_instances=20, also=("C01",),
+      clause="Python sets __hash__ to None in a class body that defines __eq__ without __hash__. CompoundQuery.normalize() puts every "
+             "clause into a set (duplicate removal) and the &, |, - operators and simplify() go through it; queries are dictionary keys "
+             "in the collectors. So every Query subclass whose body defines __eq__ defines (or assigns) __hash__ in the same body.")
+def c15_r15(ctx):
+    prog = ctx.prog
+    Q = prog.cls("query.qcore.Query")
+    n = 0
+    for K in prog.subclasses(Q):
+        names = set()
+        for st in K.node.body:
+            if isinstance(st, (ast.FunctionDef, ast.AsyncFunctionDef)):
+                names.add(st.name)
+            elif isinstance(st, ast.Assign):
+                names.update(t.id for t in st.targets if isinstance(t, ast.Name))
+        n += 1
+        ctx.ob(K, not ("__eq__" in names and "__hash__" not in names),
+               "%s stays hashable (no __eq__ without __hash__ in one class body)" % K.name,
+               detail="the class body defines __eq__ but no __hash__: Python makes the instances unhashable, normalize()/set()/dict keys "
+                      "raise TypeError", loc=K.loc)
+    if n < 20:
+        raise AnalysisError("only %d query classes" % n)
